@@ -143,9 +143,26 @@ func randomScenario(rng interface{ Intn(int) int }, n int) (Cfg, Faults, int) {
 			}
 		}
 		key := fmt.Sprintf("%d:%d", pass, start)
-		switch rng.Intn(12) {
+		switch rng.Intn(14) {
 		case 0, 1:
-			f.Fetch[key] = append(f.Fetch[key], 1) // short read
+			k := 1
+			if c.Batch > 2 {
+				k += rng.Intn(c.Batch - 1)
+			}
+			f.Fetch[key] = append(f.Fetch[key], k) // short read
+			if rng.Intn(3) == 0 {                   // and the remainder comes short / empty again
+				rk := fmt.Sprintf("%d:%d", pass, start+k)
+				f.Fetch[rk] = append(f.Fetch[rk], []int{1, -3}[rng.Intn(2)])
+			}
+		case 12, 13:
+			// the empty page (in one of its spellings), possibly more than once for the same request; the pass
+			// fails on it, so the process may be started again
+			for j := 0; j <= rng.Intn(3)/2; j++ {
+				f.Fetch[key] = append(f.Fetch[key], -3-rng.Intn(3))
+			}
+			if rng.Intn(2) == 0 {
+				restarts = 1
+			}
 		case 2:
 			f.Fetch[key] = append(f.Fetch[key], -1-rng.Intn(2))
 		case 3, 4, 5:
@@ -201,7 +218,7 @@ func TestTrace(t *testing.T) {
 	}
 	rep := vh.NewReport("c20-trace", "random scenarios (source sizes/growth/unparsable entries, destination empty/partial/full, batch, fetchers, submitters, one-shot/continuous, Run/RunWhenMaster, honest/forked source, counted fault scripts) on the real Controller under synctest virtual time and -race; every AddSequencedLeaves request and the final destination map judged index by index against the source by reference code; traces validated by MigrillianTrace.tla; non-trivial = distinct set of observed behaviour kinds")
 	rng := vh.Rand(2020)
-	nq := 0
+	nq, emptyPages, emptyAdds := 0, 0, 0
 	scen := map[string]any{}
 	for i := 0; i < n; i++ {
 		c, f, restarts := randomScenario(rng, i)
@@ -244,12 +261,16 @@ func TestTrace(t *testing.T) {
 			dst.Emit(ev)
 		}
 		rep.Eval(kindsKey(w))
+		emptyPages += w.emptyPages
+		emptyAdds += w.emptyAdds
 		if i < 3 {
 			rep.Sample(map[string]any{"cfg": c, "faults": f})
 		}
 	}
 	rec.Close()
 	recQ.Close()
+	rep.Extra["empty_pages_served"] = emptyPages
+	rep.Extra["empty_requests_refused"] = emptyAdds
 	if b, err := json.Marshal(scen); err == nil {
 		_ = os.WriteFile(vh.OutDir()+"/scenarios.json", b, 0o644)
 	}
@@ -375,7 +396,7 @@ func TestReplay(t *testing.T) {
 		t.Fatal(err)
 	}
 	rep := vh.NewReport("c20-replay", "behaviours of Migrillian.tla (TLC simulation: scenario + environment choices) replayed as counted fault schedules into the real Controller; monitors on every request; for schedules without cancellation / lost mastership / fatal faults the return class, the destination domain and the consumption of the whole schedule are compared with the specification's behaviour; non-trivial = distinct set of behaviour kinds")
-	nclean := 0
+	nclean, emptyPages, emptyAdds := 0, 0, 0
 	for i, b := range behs {
 		c, f, restarts, clean, covered := schedule(b, i)
 		sub := vh.NewReport("tmp", "")
@@ -425,12 +446,16 @@ func TestReplay(t *testing.T) {
 			key = kindsKey(w)
 		}
 		rep.Eval(key)
+		emptyPages += w.emptyPages
+		emptyAdds += w.emptyAdds
 		if i < 2 {
 			rep.Sample(map[string]any{"cfg": c, "faults": f})
 		}
 	}
 	rec.Close()
 	rep.Replayed = len(behs)
+	rep.Extra["empty_pages_served"] = emptyPages
+	rep.Extra["empty_requests_refused"] = emptyAdds
 	rep.Extra["clean"] = nclean
 	if err := rep.Write(); err != nil {
 		t.Fatal(err)
